@@ -30,7 +30,7 @@ MC_GROUPS = [["BagLawSumsToOne"], ["CambridgeSumsToOne", "PLRestrictedToSlates",
              ["PLSumsToOne", "CumulativeSumsToOne", "CumulativeMean", "SlatePLTypeSumsToOne", "SlatePLFirstSlot", "SlatePLSumsToOne"],
              ["SlateBTTypeSumsToOne", "SlateBTSumsToOne", "OneEach", "NameBTSumsToOne", "NameBTFormsAgree", "NameBTTwo", "NameBTCombined", "ICSumsToOne", "ACSumsToOne"]]
 BLANK = {"op": "", "own": "", "opp": "", "iv": [], "coh": [], "k": 0, "ntot": 0, "props": [], "tix": [1, 1], "hist": [], "labels": ["", ""],
-         "law": [], "den": 1, "complete": True, "kernel": [], "seed": [], "cpos": [], "vpos": [], "metric": "", "error": ""}
+         "law": [], "den": 1, "complete": True, "kernel": [], "seed": [], "cpos": [], "vpos": [], "metric": "", "error": "", "draws": []}
 HIST = [[["W", "C"], 3], [["W", "W", "C", "C"], 1], [["W"], 1], [["C", "W"], 2], [["C", "C", "W", "W"], 1], [["C", "W", "C"], 1]]
 
 
@@ -333,6 +333,8 @@ def spatial_work(inp):
                 with ENV.script([p[0] for p in cpos] + [p[0] for p in vpos]):
                     pp = g.generate_profile(len(vpos))
                 t["cpos"] = [[c, p] for c, p in zip(cands, cpos)]      # OneDimSpatial does not return the positions
+                t["draws"] = sorted({json.dumps([n, int(round(lo * 1000)), int(round(sc * 1000))]) for n, lo, sc in ENV.calls})
+                t["draws"] = [json.loads(x) for x in t["draws"]]
                 t["vpos"] = vpos
             else:
                 q = {"c": [], "v": []}
